@@ -4,6 +4,7 @@
   which index — and leaves behind an admissible search state.
 -/
 import LpProofs.C09.Locate
+import LpProofs.C01.Table
 namespace Lp.C09
 open Lp.Interp
 
@@ -110,13 +111,29 @@ def pInterp (o : Obj) (v : Rat) : Except Err Rat :=
   | .ok j => .ok (o.cubicAt j v)
   | .error e => .error e
 
+/-- fix 5863798 (`Interpolate` returns the tabulated value at the last abscissa) is value-neutral over
+    the rationals at the index `Locate` returns: `Obj.valueAt` is the cubic of that interval -/
+theorem valueAt_canon (o : Obj) (t : Tbl o) {v : Rat} {j : Nat} (h : locateCanon o.N o.x v = .ok j) :
+    o.valueAt j v = o.cubicAt j v := by
+  by_cases hv : v = o.x (o.N - 1)
+  · have hx : Lp.C01.StrictInc o.N o.x := fun i hi => t.mono i (i + 1) (by omega) hi
+    have hN := t.hN
+    have hlo : o.x 0 ≤ v := by rw [hv]; exact t.mono.le (Nat.zero_le _) (by omega)
+    have hc := locateCanon_canon t.mono t.hN hlo (le_of_eq hv) h
+    exact Lp.C01.valueAt_eq_cubicAt hx (by have := hc.1; omega) hc.2.1 hc.2.2.1
+  · exact Lp.C01.valueAt_of_ne hv
+
 theorem interpolate_obj (o : Obj) (t : Tbl o) (st : LState) (hst : Inv o st) (v : Rat) :
     Obj.interpolate { o with st := st } v = match locateCanon o.N o.x v with
       | .ok j => .ok (o.cubicAt j v, { o with st := nst st j })
       | .error e => .error e := by
   unfold Obj.interpolate
   rw [locate_obj o t st hst v]
-  cases locateCanon o.N o.x v <;> rfl
+  cases h : locateCanon o.N o.x v with
+  | error e => rfl
+  | ok j =>
+    show Except.ok (o.valueAt j v, ({ o with st := nst st j } : Obj)) = _
+    rw [valueAt_canon o t h]
 
 theorem closed_interpolate (o : Obj) (t : Tbl o) (st : LState) (hst : Inv o st) (v : Rat) :
     Closed o (Obj.interpolate { o with st := st } v) (pInterp o v) := by
